@@ -157,7 +157,7 @@ func TestVerifC06Backends(t *testing.T) {
 		vlib.Note("x25519: the harness copy of ladderMontgomery no longer matches curve.go; generic back-end skipped")
 	}
 	const sub = "whitebox/x25519.backends"
-	vlib.Check(t, vlib.N(500, 4000), func(t *rapid.T) {
+	vlib.Check(t, vlib.N(400, 4000), func(t *rapid.T) {
 		k := c06Scalar(t, "k")
 		u, cls := c06U(t, "u")
 		want := c06Curve.X(k[:], u[:])
